@@ -21,21 +21,41 @@ from ..core import AnalysisError
 from ..srcmodel import FuncInfo
 
 
+class _CondList(list):
+    """list of (test, bool) that also remembers, per condition, how many
+    events the path had when the condition was evaluated"""
+
+    def __init__(self, *a):
+        super().__init__(*a)
+        self.at = []
+        self.owner = None
+
+    def append(self, item):
+        super().append(item)
+        self.at.append(len(self.owner.events) if self.owner is not None
+                       else 0)
+
+
 class Path:
     def __init__(self):
         self.env = {}
         self.events = []      # (kind, ...) in order
-        self.conds = []       # (test expr, bool)
+        self.conds = _CondList()   # (test expr, bool); .at[i] = number of
+        #                           events already on the path when made
         self.end = 'fall'     # fall | return | continue | break | raise
         self.ret = None
+        self.conds.owner = self
 
     def clone(self):
         p = Path()
         p.env = dict(self.env)
         p.events = list(self.events)
-        p.conds = list(self.conds)
+        p.conds = _CondList(self.conds)
+        p.conds.at = list(self.conds.at)
+        p.conds.owner = p
         p.end = self.end
         p.ret = self.ret
+        p.displays = set(getattr(self, 'displays', ()))
         return p
 
     def cond_text(self):
@@ -302,6 +322,23 @@ class SymBody:
                 env[n] = defaults[n]
         return env
 
+    _NORETURN = {}
+
+    def never_returns(self, call):
+        """the call resolves to a package function none of whose paths ends
+        normally (an error helper that always raises)"""
+        t = self.callee(call, self.f)
+        if t is None:
+            return False
+        if t.qual not in SymBody._NORETURN:
+            from ..cfg import cfg_of
+            try:
+                cfg = cfg_of(t)
+                SymBody._NORETURN[t.qual] = cfg.exit not in cfg.reachable()
+            except Exception:
+                SymBody._NORETURN[t.qual] = False
+        return SymBody._NORETURN[t.qual]
+
     def fresh(self, base):
         self._fresh += 1
         return ast.Name(id='{}${}'.format(base, self._fresh), ctx=ast.Load())
@@ -310,6 +347,8 @@ class SymBody:
     def run(self, stmts, env=None):
         p = Path()
         p.env = dict(env or {})
+        p.displays = {k for k, v in p.env.items()
+                      if self._mutable_display(v)}
         return self.block(stmts, [p])
 
     def block(self, stmts, paths):
@@ -336,12 +375,15 @@ class SymBody:
     def assign(self, t, v, p, node):
         if isinstance(t, ast.Name):
             if self._mutable_display(v):
-                # a fresh mutable object: later reads must see the name (the
-                # object may have been mutated since), not this display
-                p.env.pop(t.id, None)
+                # a fresh mutable object: reads see the display only until
+                # something may have mutated it (see _kill_mutated)
+                p.env[t.id] = v
+                p.displays = getattr(p, 'displays', set()) | {t.id}
                 p.events.append(('bind', t.id, v, node))
             else:
                 p.env[t.id] = v
+                if t.id in getattr(p, 'displays', ()):
+                    p.displays = p.displays - {t.id}
         elif isinstance(t, (ast.Tuple, ast.List)):
             if isinstance(v, (ast.Tuple, ast.List)) and \
                     len(v.elts) == len(t.elts):
@@ -457,7 +499,48 @@ class SymBody:
         q2.conds.append((t, False))
         return [(q1, True), (q2, False)]
 
+    _MUTATORS = {'append', 'extend', 'insert', 'pop', 'remove', 'clear',
+                 'sort', 'reverse', 'update', 'add', 'discard', 'setdefault',
+                 'popitem', 'write', 'appendleft', 'popleft', '__setitem__'}
+
+    def _kill_mutated(self, st, p):
+        """locals bound to a list / dict / set display stop being known by
+        value once the statement may mutate them: a mutating method call on
+        them, a subscript store, or their being handed to any call"""
+        disp = getattr(p, 'displays', None)
+        if not disp:
+            return
+        kill = set()
+        for n in ast.walk(st):
+            if isinstance(n, ast.Call):
+                f = n.func
+                if isinstance(f, ast.Attribute) and \
+                        isinstance(f.value, ast.Name) and \
+                        f.value.id in disp and f.attr in self._MUTATORS:
+                    kill.add(f.value.id)
+                for a in list(n.args) + [k.value for k in n.keywords]:
+                    if isinstance(a, ast.Name) and a.id in disp and not (
+                            isinstance(f, ast.Name) and f.id in (
+                                'len', 'bytes', 'tuple', 'list', 'sorted',
+                                'reversed', 'enumerate', 'sum', 'min',
+                                'max', 'any', 'all', 'isinstance')) and not (
+                            isinstance(f, ast.Attribute) and
+                            f.attr == 'join'):
+                        kill.add(a.id)
+            elif isinstance(n, (ast.Subscript, ast.Attribute)) and \
+                    isinstance(n.ctx, (ast.Store, ast.Del)) and \
+                    isinstance(n.value, ast.Name) and n.value.id in disp:
+                kill.add(n.value.id)
+            elif isinstance(n, (ast.For, ast.While)):
+                for m in ast.walk(n):
+                    if isinstance(m, ast.Name) and m.id in disp:
+                        kill.add(m.id)
+        for k in kill:
+            p.env.pop(k, None)
+        p.displays = disp - kill
+
     def stmt(self, st, p):
+        self._kill_mutated(st, p)
         env = p.env
         if isinstance(st, ast.Expr):
             v = st.value
@@ -471,6 +554,8 @@ class SymBody:
                 p.events.append(('yield_from', self.S(v.value, env), st))
                 return [p]
             p.events.append(('call', self.S(v, env), st))
+            if isinstance(v, ast.Call) and self.never_returns(v):
+                p.end = 'raise'
             return [p]
         if isinstance(st, ast.Assign):
             v = self.S(st.value, env)
